@@ -417,12 +417,15 @@ pub fn scenarios(thorough: bool) -> Vec<(String, Scenario)> {
     v.push(("read-none-L1".into(), Scenario::Read { file: f_small(0, 1) }));
     v.push(("read-deep-none-L2".into(), Scenario::Read { file: f_deep(0) }));
     v.push(("read-snappy-L0".into(), Scenario::Read { file: f_small(5, 0) }));
+    // every codec on the read side (third-party decoders sit between the source and the API)
+    v.push(("read-zlib-L2".into(), Scenario::Read { file: f_small(2, 2) }));
+    v.push(("read-lz4-L1".into(), Scenario::Read { file: f_small(3, 1) }));
+    v.push(("read-zstd-L1".into(), Scenario::Read { file: f_small(4, 1) }));
+    v.push(("read-pre05-L1".into(), Scenario::Read { file: f_small(1, 1) }));
     if thorough {
         v.push(("write-zlib-L2".into(), Scenario::Write { file: f_small(2, 2) }));
-        v.push(("read-zlib-L2".into(), Scenario::Read { file: f_small(2, 2) }));
-        v.push(("read-lz4-L1".into(), Scenario::Read { file: f_small(3, 1) }));
-        v.push(("read-zstd-L1".into(), Scenario::Read { file: f_small(4, 1) }));
-        v.push(("read-pre05-L1".into(), Scenario::Read { file: f_small(1, 1) }));
+        v.push(("write-lz4-L0".into(), Scenario::Write { file: f_small(3, 0) }));
+        v.push(("write-zstd-L1".into(), Scenario::Write { file: f_small(4, 1) }));
     }
     v.push(("merge-stream".into(), Scenario::Merge { masks: vec![0b0111, 0b1110, 0b0101], cfgs: vec![0, 1, 0], into_writer: false }));
     v.push(("merge-into-writer".into(), Scenario::Merge { masks: vec![0b1011, 0b0110, 0b1101], cfgs: vec![1, 0, 2], into_writer: true }));
@@ -442,5 +445,28 @@ pub fn scenarios(thorough: bool) -> Vec<(String, Scenario)> {
         c.block_size = Some(1024);
         v.push(("sort-snappy-L2".into(), Scenario::Sort { cfg: c, sizes: vec![(1, 600), (2, 8), (1, 30), (0, 600), (2, 30), (1, 8), (0, 8)], how: crate::sorter_util::Extraction::Stream }));
     }
+    v
+}
+
+/// Tiny scenarios (a few hundred component calls even with 1-byte transfers), used where the
+/// cost of a run is multiplied by a transfer policy.
+pub fn mini_scenarios() -> Vec<(String, Scenario)> {
+    let mut v: Vec<(String, Scenario)> = Vec::new();
+    let f = |codec: u8, levels: u8| {
+        FileSpec::new(
+            FileCfg::layout(Some(1024), Some(1), levels).with_codec(codec, 0),
+            EntrySpec::Uniform { n: 2, klen: 2, vlen: 5, wide: false },
+        )
+    };
+    for (c, l) in [(0u8, 0u8), (0, 2), (5, 1), (3, 1), (2, 0), (4, 0), (1, 1)] {
+        v.push((format!("mini-write-codec{c}-L{l}"), Scenario::Write { file: f(c, l) }));
+        v.push((format!("mini-read-codec{c}-L{l}"), Scenario::Read { file: f(c, l) }));
+    }
+    v.push(("mini-merge-stream".into(), Scenario::Merge { masks: vec![0b0011, 0b0110], cfgs: vec![0, 0], into_writer: false }));
+    v.push(("mini-merge-into-writer".into(), Scenario::Merge { masks: vec![0b0011, 0b0110], cfgs: vec![0, 2], into_writer: true }));
+    let mut c = SorterCfg::scaled(64, 32, true, 1, false);
+    c.creator = 2;
+    v.push(("mini-sort-stream".into(), Scenario::Sort { cfg: c.clone(), sizes: vec![(1, 30), (2, 8), (1, 30)], how: crate::sorter_util::Extraction::Stream }));
+    v.push(("mini-sort-into-writer".into(), Scenario::Sort { cfg: c, sizes: vec![(1, 30), (2, 8), (1, 30)], how: crate::sorter_util::Extraction::IntoWriter }));
     v
 }
